@@ -215,6 +215,18 @@ async fn gen_main<S: Sys>(env: &mut Env<S>, args: Vec<Field>) -> BResult {
     }
 }
 
+/// `selfkill NAME`: sends signal NAME to the process executing the built-in (a subshell cannot
+/// learn its own pid from `$$`).
+async fn selfkill_main<S: Sys>(env: &mut Env<S>, args: Vec<Field>) -> BResult {
+    use yash_env::system::{SendSignal as _, Signals as _};
+    let name = args.first().map(|f| f.value.as_str()).unwrap_or("TERM");
+    let Some(num) = env.system.str2sig(name) else { return BResult::new(ExitStatus(2)) };
+    match env.system.raise(num).await {
+        Ok(()) => BResult::new(ExitStatus(0)),
+        Err(_) => BResult::new(ExitStatus(1)),
+    }
+}
+
 pub fn fnv(data: &[u8]) -> u64 {
     let mut h: u64 = 0xcbf29ce484222325;
     for b in data {
@@ -275,6 +287,7 @@ pub fn register<S: Sys>(env: &mut Env<S>) {
         ("cat", Builtin::new(Type::Mandatory, |env, args| Box::pin(cat_main(env, args)))),
         ("gen", Builtin::new(Type::Mandatory, |env, args| Box::pin(gen_main(env, args)))),
         ("sink", Builtin::new(Type::Mandatory, |env, args| Box::pin(sink_main(env, args)))),
+        ("selfkill", Builtin::new(Type::Mandatory, |env, args| Box::pin(selfkill_main(env, args)))),
         ("pos", Builtin::new(Type::Mandatory, |env, args| Box::pin(ready(pos_main(env, args))))),
         ("snap", Builtin::new(Type::Mandatory, |env, args| Box::pin(ready(snap_main(env, args))))),
     ];
